@@ -100,7 +100,9 @@ PROPS = {
         theorems=["C16_accumulates_in_arrival_order", "C16_collect", "C16_nothing_for_others",
                   "C16_every_mentioned_entity", "C16_extend_is_append", "C16_add_is_extend_by_one", "C16_ops_collect",
                   "C16_ops_extend", "C16_ops_add", "C16_ops_other_slots", "C16_member_of_a_join", "C16_each_index_once",
-                  "C16_item_is_the_accumulated_amount", "C16_consumed_by_value"],
+                  "C16_item_is_the_accumulated_amount", "C16_consumed_by_value",
+                  "C16_each_amount_paired_once_with_its_entity", "C16_change_set_after_a_join",
+                  "C16_join_refines_the_join_on_maps"],
         required="spec",
         nontrivial="history contains a change set with a repeated entity and a join over it that yields at least one item",
     ),
